@@ -5,7 +5,7 @@ use alloc::vec::Vec;
 use core::any::type_name;
 use core::iter::once;
 
-use anyhow::{anyhow, ensure, Result};
+use anyhow::{anyhow, bail, ensure, Result};
 use itertools::Itertools;
 use plonky2::field::extension::{Extendable, FieldExtension};
 use plonky2::field::types::Field;
@@ -39,6 +39,15 @@ pub fn verify_stark_proof<
     verifier_circuit_fri_params: Option<FriParams>,
 ) -> Result<()> {
     ensure!(proof_with_pis.public_inputs.len() == S::PUBLIC_INPUTS);
+    // The challenges are derived from the proof's own contents, so its shape must be validated first.
+    validate_proof_shape(
+        &stark,
+        &proof_with_pis.proof,
+        &proof_with_pis.public_inputs,
+        config,
+        0,
+        0,
+    )?;
     let mut challenger = Challenger::<F, C::Hasher>::new();
 
     let challenges = proof_with_pis.get_challenges(
@@ -230,6 +239,18 @@ where
     C: GenericConfig<D, F = F>,
     S: Stark<F, D>,
 {
+    // The degree is recovered from the length of the first Merkle path of the opening proof.
+    let first_merkle_path_len = proof
+        .opening_proof
+        .query_round_proofs
+        .first()
+        .and_then(|round| round.initial_trees_proof.evals_proofs.first())
+        .map(|(_, merkle_proof)| merkle_proof.siblings.len());
+    let Some(first_merkle_path_len) = first_merkle_path_len else {
+        bail!("The opening proof has no query round or no initial Merkle proof.");
+    };
+    let lde_bits = config.fri_config.cap_height + first_merkle_path_len;
+    ensure!(lde_bits >= config.fri_config.rate_bits && lde_bits <= F::TWO_ADICITY);
     let degree_bits = proof.recover_degree_bits(config);
 
     let StarkProof {
@@ -268,7 +289,8 @@ where
     ensure!(local_values.len() == S::COLUMNS);
     ensure!(next_values.len() == S::COLUMNS);
     ensure!(if let Some(quotient_polys) = quotient_polys {
-        quotient_polys.len() == stark.num_quotient_polys(config)
+        stark.num_quotient_polys(config) > 0
+            && quotient_polys.len() == stark.num_quotient_polys(config)
     } else {
         stark.num_quotient_polys(config) == 0
     });
